@@ -3,6 +3,11 @@ package node
 import (
 	"encoding/json"
 	"fmt"
+	"sort"
+	"strings"
+
+	sdk "github.com/cosmos/cosmos-sdk/types"
+	tmproto "github.com/tendermint/tendermint/proto/tendermint/types"
 
 	dbm "github.com/tendermint/tm-db"
 
@@ -20,7 +25,9 @@ import (
 // preparing a restart-from-export might get wrong).
 var GenesisEdits = []string{"relayer_empty_address", "relayer_length_mismatch", "relayer_duplicate", "relayer_no_chains",
 	"native_chain_name_empty", "send_sequence_zero", "commitment_empty_hash", "consensus_entry_without_states",
-	"metadata_empty_key", "token_pair_duplicate", "reward_invalid_denom", "client_duplicate"}
+	"metadata_empty_key", "token_pair_duplicate", "reward_invalid_denom", "client_duplicate",
+	// not mistakes but volume: registries grown well past any page size before the export
+	"many_token_pairs", "many_relayers"}
 
 // GenesisEditResult: what happened to an edited genesis.
 type GenesisEditResult struct {
@@ -29,6 +36,7 @@ type GenesisEditResult struct {
 	ValidateErr   string // the modules' own validation rejected it (fine)
 	ValidatePanic string // validation itself panicked
 	InitPanic     string // validation accepted it and InitChain panicked (C15)
+	RoundTrip     string // accepted and initialised, but the fresh instance's own export has other list lengths (C13)
 }
 
 func asMap(v interface{}) map[string]interface{} { m, _ := v.(map[string]interface{}); return m }
@@ -111,6 +119,21 @@ func (c *Chain) GenesisEditInit(kind int, arg int64) (res GenesisEditResult) {
 			gen["aggregate"]["token_pairs"] = append(tp, tp[int(arg)%len(tp)])
 			res.Applied = true
 		}
+	case "many_token_pairs":
+		tp := asList(gen["aggregate"]["token_pairs"])
+		for i := 0; i < 130+int(arg%40); i++ {
+			tp = append(tp, map[string]interface{}{"erc20_address": fmt.Sprintf("0x%040x", 0xabc000+i), "denoms": []string{fmt.Sprintf("bulk%03d", i)}, "enabled": true, "contract_owner": "OWNER_EXTERNAL"})
+		}
+		gen["aggregate"]["token_pairs"] = tp
+		res.Applied = true
+	case "many_relayers":
+		for i := 0; i < 120+int(arg%30); i++ {
+			acc := make([]byte, 20)
+			acc[0], acc[18], acc[19] = 0x77, byte(i>>8), byte(i)
+			rels = append(rels, map[string]interface{}{"address": sdk.AccAddress(acc).String(), "chains": []string{"peer-bulk"}, "addresses": []string{fmt.Sprintf("0x%040x", i)}})
+		}
+		cg["relayers"] = rels
+		res.Applied = true
 	case "reward_invalid_denom":
 		if p := asMap(gen["rvesting"]["params"]); p != nil {
 			p["per_block_reward"] = []interface{}{map[string]interface{}{"denom": "1x", "amount": "5"}}
@@ -159,6 +182,59 @@ func (c *Chain) GenesisEditInit(kind int, arg int64) (res GenesisEditResult) {
 	fresh := NewApp(dbm.NewMemDB())
 	if err := guardErr(func() { fresh.InitChain(req); fresh.Commit() }); err != nil {
 		res.InitPanic = err.Error()
+		return res
+	}
+	// volume edits add distinct, well-formed entries only: the fresh instance's own export must list as many
+	// entries of every kind as the genesis it was given (duplicates introduced by the other edits are
+	// legitimately folded, so those are not compared)
+	if !strings.HasPrefix(res.Edit, "many_") {
+		return res
+	}
+	fctx := fresh.NewContext(true, tmproto.Header{Height: fresh.LastBlockHeight()})
+	back := map[string]json.RawMessage{}
+	if err := guardErr(func() {
+		back["xibc"] = cdc.MustMarshalJSON(xibc.ExportGenesis(fctx, *fresh.XIBCKeeper))
+		back["aggregate"] = cdc.MustMarshalJSON(aggregate.ExportGenesis(fctx, *fresh.AggregateKeeper))
+	}); err != nil {
+		res.RoundTrip = "export of the fresh instance panics: " + err.Error()
+		return res
+	}
+	for _, m := range []string{"xibc", "aggregate"} {
+		var a, b interface{}
+		if json.Unmarshal(edited[m], &a) != nil || json.Unmarshal(back[m], &b) != nil {
+			continue
+		}
+		if d := listLengthDiff(m, a, b); d != "" {
+			res.RoundTrip = d
+			return res
+		}
 	}
 	return res
+}
+
+// listLengthDiff compares the lengths of all lists (two levels deep) of two genesis documents.
+func listLengthDiff(path string, a, b interface{}) string {
+	am, bm := asMap(a), asMap(b)
+	if am == nil || bm == nil {
+		return ""
+	}
+	var keys []string
+	for k := range am {
+		keys = append(keys, k)
+	}
+	sort.Strings(keys)
+	for _, k := range keys {
+		if la, lb := asList(am[k]), asList(bm[k]); la != nil || lb != nil {
+			if len(la) != len(lb) {
+				return fmt.Sprintf("%s.%s: %d entries given, %d exported", path, k, len(la), len(lb))
+			}
+			continue
+		}
+		if strings.Count(path, ".") < 1 {
+			if d := listLengthDiff(path+"."+k, am[k], bm[k]); d != "" {
+				return d
+			}
+		}
+	}
+	return ""
 }
